@@ -184,6 +184,8 @@ type FaultSpec struct {
 	Call int    `json:"call"`
 	Kind string `json:"kind"` // "fail" | "short"
 	N    int    `json:"n,omitempty"`
+	// Trunc: the same outage also fails the next Truncate (the roll-back of the partial section)
+	Trunc bool `json:"trunc,omitempty"`
 }
 
 // MediumSpec and SchedSpec are defined next to their engines.
